@@ -2805,3 +2805,136 @@ func ruleAddrRetain(prog *Program, rep *Report, floor int, rels ...string) {
 	rep.Rules = append(rep.Rules, "A-addrretain: no loop appends or stores the address of a variable that is declared outside the loop and assigned inside it ("+strings.Join(rels, ", ")+")")
 	runSynRule(prog, rep, "A-addrretain", rels, matchAddrRetain, fixtureAddrRetain, 1, floor)
 }
+
+// ---------------------------------------------------------------- F-timeeq
+
+// matchTimeEq: two time.Time values compared with == or != compare wall clock, monotonic reading and the
+// *Location pointer: equal instants parsed twice, or carried in different zones, differ. Equality of times is
+// Equal().
+func matchTimeEq(files []*ast.File, info *types.Info) (sites []synSite, examined int) {
+	isTime := func(e ast.Expr) bool {
+		t := info.TypeOf(e)
+		if t == nil {
+			return false
+		}
+		nt, ok := t.(*types.Named)
+		return ok && nt.Obj().Name() == "Time" && nt.Obj().Pkg() != nil && nt.Obj().Pkg().Path() == "time"
+	}
+	for _, f := range files {
+		ast.Inspect(f, func(n ast.Node) bool {
+			be, ok := n.(*ast.BinaryExpr)
+			if !ok || (be.Op != token.EQL && be.Op != token.NEQ) {
+				return true
+			}
+			if !isTime(be.X) && !isTime(be.Y) {
+				return true
+			}
+			examined++
+			if isTime(be.X) && isTime(be.Y) {
+				name := enclosingFuncName(f, be.Pos())
+				sites = append(sites, synSite{pos: be.Pos(), file: f, key: fmt.Sprintf("%s:time-compare:%s", name, be.Op),
+					msg: fmt.Sprintf("%s compares two time.Time values with %s (%s): the location pointer and the monotonic reading take part, so equal instants can compare as different", name, be.Op, types.ExprString(be))})
+			}
+			return true
+		})
+	}
+	return
+}
+
+const fixtureTimeEq = `package fixture
+
+import "time"
+
+func same(a, b time.Time) bool { return a.Round(time.Second) != b.Round(time.Second) }
+func same2(a, b time.Time) bool { return a.Equal(b) }
+`
+
+func ruleTimeEq(prog *Program, rep *Report, rels ...string) {
+	rep.Rules = append(rep.Rules, "F-timeeq: no == or != compares two time.Time values ("+strings.Join(rels, ", ")+"): time equality is Equal()")
+	runSynRule(prog, rep, "F-timeeq", rels, matchTimeEq, fixtureTimeEq, 1, 0)
+}
+
+// ---------------------------------------------------------------- D-bufview
+
+// matchBufView: a method stores a view of one of its []byte parameters in a receiver field (p.tmp =
+// buf[start:off+1]). The parameter of a parser's dispatch function is the caller's slice or the read buffer that
+// the reader entry refills for the next chunk: a field that has to outlive the call needs a copy (append to the
+// field's own memory).
+func matchBufView(files []*ast.File, info *types.Info) (sites []synSite, examined int) {
+	for _, f := range files {
+		for _, d := range f.Decls {
+			fd, ok := d.(*ast.FuncDecl)
+			if !ok || fd.Body == nil || fd.Recv == nil || len(fd.Recv.List) != 1 || len(fd.Recv.List[0].Names) != 1 || fd.Type.Params == nil {
+				continue
+			}
+			recv := info.Defs[fd.Recv.List[0].Names[0]]
+			params := map[types.Object]bool{}
+			for _, p := range fd.Type.Params.List {
+				for _, nm := range p.Names {
+					o := info.Defs[nm]
+					if o == nil {
+						continue
+					}
+					if sl, ok := o.Type().Underlying().(*types.Slice); ok {
+						if b, ok := sl.Elem().Underlying().(*types.Basic); ok && b.Kind() == types.Uint8 {
+							params[o] = true
+						}
+					}
+				}
+			}
+			if len(params) == 0 {
+				continue
+			}
+			ast.Inspect(fd.Body, func(n ast.Node) bool {
+				as, ok := n.(*ast.AssignStmt)
+				if !ok || len(as.Lhs) != len(as.Rhs) {
+					return true
+				}
+				for i, l := range as.Lhs {
+					sel, ok := ast.Unparen(l).(*ast.SelectorExpr)
+					if !ok {
+						continue
+					}
+					id, ok := ast.Unparen(sel.X).(*ast.Ident)
+					if !ok || info.Uses[id] != recv {
+						continue
+					}
+					examined++
+					root := ast.Unparen(as.Rhs[i])
+					for {
+						if se, ok := root.(*ast.SliceExpr); ok {
+							root = ast.Unparen(se.X)
+							continue
+						}
+						break
+					}
+					rid, ok := root.(*ast.Ident)
+					if !ok || !params[info.Uses[rid]] {
+						continue
+					}
+					name := enclosingFuncName(f, fd.Pos())
+					sites = append(sites, synSite{pos: as.Pos(), file: f, key: fmt.Sprintf("%s:field-views-param:%s", name, sel.Sel.Name),
+						msg: fmt.Sprintf("%s stores %s, a view of its parameter %s, in the field %s: the bytes belong to the caller (or are the read buffer that the next chunk overwrites)", name, types.ExprString(as.Rhs[i]), rid.Name, sel.Sel.Name)})
+				}
+				return true
+			})
+		}
+	}
+	return
+}
+
+const fixtureBufView = `package fixture
+
+type parser struct{ tmp []byte }
+
+func (p *parser) parse(buf []byte) {
+	p.tmp = p.tmp[:0]
+	p.tmp = append(p.tmp, buf[1:3]...)
+	p.tmp = buf[1:3]
+}
+`
+
+func ruleBufView(prog *Program, rep *Report, floor int, rels ...string) {
+	rep.Rules = append(rep.Rules, "D-bufview: no method stores a slice of one of its []byte parameters in a receiver field ("+strings.Join(rels, ", ")+"): scratch fields that outlive a buffer hold copies")
+	runSynRule(prog, rep, "D-bufview", rels, matchBufView, fixtureBufView, 1, floor)
+}
